@@ -275,6 +275,49 @@ example : run [] [.reconfigure true [0] hStart, .connect hLocal 8081 .tcp true,
        .listeners [(0, ⟨.tcp, [([0x31,0x32,0x37,0x2e,0x30,0x2e,0x30,0x2e,0x31], 8080)]⟩)],
        .trace [.hookServerConnect, .socketOpen, .hookServerConnectError, .completedError]] := by decide +kernel
 
+/-! ### repeated attempts on one connection object -/
+
+/-- the trace of an attempt with a fresh object is the single-attempt model -/
+theorem attempt_fresh (servers : List Server) (dh : Text) (dp : Nat) (tp : Transport) (ok : Bool) :
+    (attempt servers none dh dp tp ok).1 = openTrace servers dh dp tp ok := by
+  simp only [attempt, errorAfterHook, openTrace, serverConnect, openConnection]
+  cases selfConnect servers dh dp tp <;> cases ok <;> rfl
+
+/-- **the verdict of THIS attempt decides.** When the guard fires, the attempt does not dial —
+    whatever error the object carried before (none, a stale dial error, or the guard's own message from
+    an earlier attempt). -/
+theorem attempt_blocked_whatever_prior (servers : List Server) (prior : Option ConnError) (dh : Text)
+    (dp : Nat) (tp : Transport) (ok : Bool) (h : selfConnect servers dh dp tp = true) :
+    attempt servers prior dh dp tp ok =
+      ([Ev.hookServerConnect, Ev.hookServerConnectError, Ev.completedKilled], some ConnError.destinationUnknown) := by
+  simp [attempt, errorAfterHook, h]
+
+/-- **C23 over repeated attempts.** For every history of `OpenConnection` commands on one `Server`
+    object (any initial error, the listener set changing arbitrarily in between, any dial outcomes):
+    every attempt whose destination denotes a socket of the listener set current at that attempt ends
+    killed, without reaching the socket primitive. -/
+theorem repeated_attempts_never_dial_own_socket (prior : Option ConnError) (dh : Text) (dp : Nat)
+    (tp : Transport) (hist : List (List Server × Bool)) (i : Nat) (servers : List Server) (ok : Bool)
+    (hi : hist[i]? = some (servers, ok)) (hown : denotesOwnSocket servers dh dp tp = true) :
+    (attempts prior dh dp tp hist)[i]? =
+      some (some ConnError.destinationUnknown,
+            [Ev.hookServerConnect, Ev.hookServerConnectError, Ev.completedKilled]) := by
+  induction hist generalizing prior i with
+  | nil => simp at hi
+  | cons x rest ih =>
+    obtain ⟨s0, ok0⟩ := x
+    cases i with
+    | zero =>
+      simp only [List.getElem?_cons_zero, Option.some.injEq, Prod.mk.injEq] at hi
+      obtain ⟨rfl, rfl⟩ := hi
+      have hb := spec_implies_blocked s0 dh dp tp hown
+      simp [attempts, attempt_blocked_whatever_prior s0 prior dh dp tp ok0 hb, errorAfterHook, hb]
+    | succ j =>
+      simp only [List.getElem?_cons_succ] at hi
+      simp only [attempts, List.getElem?_cons_succ]
+      exact ih _ j hi
+
+
 /-! ### non-vacuity: concrete spellings, computed by the kernel -/
 
 private def srvTcp : List Server := [⟨.tcp, [([0x31,0x32,0x37,0x2e,0x30,0x2e,0x30,0x2e,0x31], 8080)]⟩]   -- 127.0.0.1:8080
@@ -305,5 +348,17 @@ theorem resolver_spelling_counterexample :
 -- resolver-only spelling "127.1" is outside `ipaddress` and outside the specification (documented residual)
 example : denotesOwnSocket srvTcp [0x31,0x32,0x37,0x2e,0x31] 8080 .tcp = false ∧
     selfConnect srvTcp [0x31,0x32,0x37,0x2e,0x31] 8080 .tcp = false := by decide +kernel
+
+-- the c23-5 scenario: "localhost":8080 opened three times on one object while listening on 127.0.0.1:8080
+example : (attempts none [0x6c,0x6f,0x63,0x61,0x6c,0x68,0x6f,0x73,0x74] 8080 .tcp
+            [(srvTcp, true), (srvTcp, true), (srvTcp, false)]).map (·.2)
+    = [[.hookServerConnect, .hookServerConnectError, .completedKilled],
+       [.hookServerConnect, .hookServerConnectError, .completedKilled],
+       [.hookServerConnect, .hookServerConnectError, .completedKilled]] := by decide +kernel
+-- not constant: a foreign destination dials; after a failed dial the stale error kills the retry without dialing
+example : (attempts none [0x65,0x78,0x61,0x6d,0x70,0x6c,0x65,0x2e,0x63,0x6f,0x6d] 8080 .tcp
+            [(srvTcp, false), (srvTcp, true)]).map (·.2)
+    = [[.hookServerConnect, .socketOpen, .hookServerConnectError, .completedError],
+       [.hookServerConnect, .hookServerConnectError, .completedKilled]] := by decide +kernel
 
 end MitmVerif.Props.C23
